@@ -237,7 +237,7 @@ namespace thr
                 fwake(S->main_baton);
                 return;
             }
-            set_violation("C20/deadlock", "no runnable thread:" + describe_blocked());
+            set_violation(S->cfg.prop + "/deadlock", "no runnable thread:" + describe_blocked());
             S->aborting = true;
             if (self && !self->done) longjmp(self->jb, 1);
             kill_next();
@@ -305,7 +305,7 @@ namespace thr
         S->tr->ev("T%d %s %c%d", t->id, what, kind, oid);
         if (S->res.steps > S->cfg.step_cap)
         {
-            set_violation("C20/livelock", "step cap exceeded");
+            set_violation(S->cfg.prop + "/livelock", "step cap exceeded");
             abort_from_thread(t);
         }
         t->vc.c[t->id]++;
@@ -479,7 +479,7 @@ namespace thr
         {
             char b[160];
             snprintf(b, sizeof b, "T%d %s on condition variable c%d after it was destroyed", t->id, what, c.id);
-            report("C20/use-of-destroyed-condvar", b);
+            report(S->cfg.prop + "/use-of-destroyed-condvar", b);
         }
         c.use_clk[t->id] = t->vc.c[t->id];
         c.use_what[t->id] = what;
@@ -501,7 +501,7 @@ namespace thr
             if (mx.owner == t->id)
             {
                 // non-recursive relock by the owner: can never become runnable
-                set_violation("C20/self-deadlock", "thread relocked a non-recursive mutex it owns");
+                set_violation(S->cfg.prop + "/self-deadlock", "thread relocked a non-recursive mutex it owns");
                 abort_from_thread(t);
             }
             schedule(t);
@@ -524,7 +524,7 @@ namespace thr
         {
             char b[128];
             snprintf(b, sizeof b, "T%d unlocks mutex m%d owned by %d", t->id, mx.id, mx.owner);
-            report("C20/unlock-not-owner", b);
+            report(S->cfg.prop + "/unlock-not-owner", b);
         }
         mx.vc.join(t->vc);
         if (--mx.depth == 0) mx.owner = -1;
@@ -538,7 +538,7 @@ namespace thr
         CondModel &cx = cm(c);
         cond_use(cx, "wait");
         MutexModel &mx = mm(m);
-        if (mx.owner != t->id) report("C20/cond-wait-without-mutex", "condition wait without owning the mutex");
+        if (mx.owner != t->id) report(S->cfg.prop + "/cond-wait-without-mutex", "condition wait without owning the mutex");
         int depth = mx.depth;
         mx.vc.join(t->vc);
         mx.depth = 0;
@@ -609,12 +609,12 @@ namespace thr
                 snprintf(b, sizeof b,
                          "T%d destroys condition variable c%d while T%d's %s on it is not ordered before the destruction",
                          t->id, cx.id, u, cx.use_what[u] ? cx.use_what[u] : "use");
-                report("C20/condvar-destroyed-concurrently-with-use", b);
+                report(S->cfg.prop + "/condvar-destroyed-concurrently-with-use", b);
             }
         }
         for (auto o : S->th)
             if (!o->done && o->st == BLK_COND && o->waitobj == c)
-                report("C20/condvar-destroyed-with-waiters", "condition variable destroyed while a thread waits on it");
+                report(S->cfg.prop + "/condvar-destroyed-with-waiters", "condition variable destroyed while a thread waits on it");
         cx.destroyed = true;
         cx.destroy_tid = t->id;
         cx.destroy_clk = t->vc.c[t->id];
@@ -700,7 +700,7 @@ namespace thr
                  t->id, w ? "write" : "read", a.c_str(), ot, ow ? "write" : "read", b.c_str());
         (void)addr;
         std::string lo = std::min(a, b), hi = std::max(a, b);
-        report("C20/race:" + lo + "|" + hi, buf);
+        report(S->cfg.prop + "/race:" + lo + "|" + hi, buf);
     }
 
     static inline void access(uintptr_t p, size_t n, bool w, void *pc)
